@@ -1,5 +1,5 @@
 """C08 — betweenness counts exactly the shortest paths through each node and connection."""
-import itertools
+import itertools, heapq, contextlib
 from fractions import Fraction as F
 import numpy as np
 from common import *
@@ -38,7 +38,13 @@ RULE = ('every labelled digraph on n<=3 nodes (n<=4 thorough, a random slice of 
         'oracle-only graphs with n = 12..36 (random sparse/dense, grids to 6x6, rings / trees with chords, unions, isolated nodes, '
         'layered), layered graphs 11 x 7 (path counts > 2^24 for many pairs), a shuffled path on 129..140 nodes (closed form); the '
         'same networks as int64 / int32 / int8 / uint8 / bool / float32 arrays; matrices that are not 0/1 through the binary '
-        'routines (against the models only).')
+        'routines (against the models only). STRESS FAMILIES (oracle only: Brandes recursion with Python-int path counts and Fraction dependencies, '
+        'compared with the pair-counting oracle on a small member of each family in every run): braids - end node, 41..50 layers of 3 or 63..70 layers of 2 nodes, end node, '
+        'consecutive layers completely connected, one-way or both ways, unit or per-layer lengths 1..3, labels permuted, n = 125..142, 3^41 / 2^63 and more shortest routes '
+        'between the ends (beyond int64) - one per quick run; thorough tier = escalated pass on a changed tree (run FIRST there): eleven of them + braids beyond 2^31 / 2^32 / 2^53 '
+        '(3 x 20..33, 2 x 32..52, 4 x 16..26) + grids 8x8..10x10; all four routines, the node-vector and sum identities, the weighted routines on the 0/1 pattern; float path counts are '
+        'compared at 1e-9 at any magnitude (additions of positive terms only). K50 + chain of 183 (connected, n = 233) through betweenness_bin: walk counts beyond binary64, '
+        'the routine does not return (open finding betweenness_bin[walk-count-overflow]:returns; quick: overflow flag trapped, thorough: 15 s limit).')
 ASSUMES = ['connection lengths are small positive integers or integers < 2^33 times 2^-20 / 2^-30 (dyadic): every sum / '
            'comparison of lengths and every path count the model treats as exact is exact in binary64; quotients are '
            'compared with tolerance 1e-9',
@@ -46,7 +52,10 @@ ASSUMES = ['connection lengths are small positive integers or integers < 2^33 ti
            'decimal families: the property is read on the lengths as given in binary64 (exact rational values of the doubles); '
            'where binary64 route sums separate or merge exactly tied routes the routines are KNOWN to return the betweenness of '
            'the rounded sums (open finding, keys *[rounded-lengths]:tie), recognised by an independent oracle that replays those sums',
-           'path counts stay below 2^53 (graphs whose counts exceed that are not compared)']
+           'path counts: below 2^53 in the main stream and wherever a model line is run (graphs whose counts exceed that are not compared there); the stress families go to '
+           '2^63 and beyond against the exact-integer oracle at tolerance 1e-9 - the float routines only add and multiply positive path counts, so their relative error stays ~1e-14',
+           'betweenness_bin: the number of ALL walks of length d (NPd) is an exact integer in the model and binary64 in the code - beyond 1.8e308 (dense block + tail of ~180+ nodes) '
+           'the code does not terminate (OPEN finding betweenness_bin[walk-count-overflow]:returns, proposed_fixes/betweenness_bin_overflow.diff)']
 TRUSTED = ['bc_correct for the four routines (model output = BC_spec / EBC_spec) IS a theorem about the Gallina models '
            '(C08_bc_correct); that the models follow the Python code statement by statement is established by the '
            'differential correspondence (sampling), including the per-source search state (Q, q, NP, D, P) of the '
@@ -465,6 +474,81 @@ def big_graph(ctx):
     return 'big_layered', g_layered(r, widths, bool(r.rand() < 0.5))
 
 
+# ---------------------------------------------------------------- stress families: path counts beyond 2^31 / 2^53 / 2^63 (oracle only)
+def brandes_exact(Lx):
+    """BC / EBC with path counts as Python ints and dependencies as Fractions (no rounding, no wrap-around, any magnitude):
+    per source a heap Dijkstra on the exact lengths, sigma by summing over tight predecessors in order of distance, then
+    the dependency recursion delta[v] = sum over tight v->w of sigma[v]/sigma[w] * (1 + delta[w]) from the far end back.
+    O(n * m) Fraction operations - cheap where oracle_pairs (O(n^2 * m)) is not; the two are compared on a small member
+    of each family in every run (`stress_selftest`).  -> (BC, EBC, D per source, largest path count)"""
+    n = len(Lx)
+    adj = [[(w, Lx[v][w]) for w in range(n) if w != v and Lx[v][w] is not None] for v in range(n)]
+    BC = [F(0)] * n
+    EBC = [[F(0)] * n for _ in range(n)]
+    Dall, maxsig = [], 0
+    for s in range(n):
+        D = [None] * n
+        D[s] = 0
+        done = [False] * n
+        order = []
+        heap = [(0, s)]
+        while heap:
+            dv, v = heapq.heappop(heap)
+            if done[v]:
+                continue
+            done[v] = True
+            order.append(v)
+            for w, l in adj[v]:
+                if not done[w]:
+                    x = dv + l
+                    if D[w] is None or x < D[w]:
+                        D[w] = x
+                        heapq.heappush(heap, (x, w))
+        Dall.append(D)
+        preds = [[] for _ in range(n)]
+        for v in order:
+            for w, l in adj[v]:
+                if D[w] is not None and D[v] < D[w] and D[v] + l == D[w]:
+                    preds[w].append(v)
+        sig = [0] * n
+        sig[s] = 1
+        for w in order[1:]:
+            sig[w] = sum(sig[v] for v in preds[w])
+        maxsig = max(maxsig, max(sig))
+        delta = [F(0)] * n
+        for w in reversed(order[1:]):
+            f = (1 + delta[w]) / sig[w]
+            for v in preds[w]:
+                c = sig[v] * f
+                EBC[v][w] += c
+                delta[v] += c
+            BC[w] += delta[w]
+    return BC, EBC, Dall, maxsig
+
+
+def g_braid(r, width, layers, directed, lens=None):
+    """end node - `layers` layers of `width` nodes, consecutive layers completely connected - end node; the length of a
+    connection depends on its layer only (lens[k], default 1): every route between two nodes has the same length and the
+    number of shortest routes between the two ends is width**layers.  -> (integer length matrix, node permutation)"""
+    L_, n = [], 0
+    for wd in [1] + [width] * layers + [1]:
+        L_.append(list(range(n, n + wd)))
+        n += wd
+    A = np.zeros((n, n), dtype=np.int64)
+    for k, (la, lb) in enumerate(zip(L_, L_[1:])):
+        for a in la:
+            for b in lb:
+                A[a, b] = 1 if lens is None else lens[k]
+                if not directed:
+                    A[b, a] = A[a, b]
+    p = [int(x) for x in r.permutation(n)]
+    return A[np.ix_(p, p)], p
+
+
+BRAID_HOW = ('layers = [1] + [width]*layers + [1] nodes, numbered consecutively; every node of layer k is connected to every node of '
+             'layer k+1 with length lens[k] (1 when lens is None), in both directions unless directed; L = L[ix_(perm, perm)]')
+
+
 # ---------------------------------------------------------------- decimal (non-dyadic) lengths
 DECIMALS = [0.1, 0.2, 0.3, 0.7, 0.9, 1.1, 1.0 / 3.0, 0.6]
 TIE_KEY_N = 'betweenness_wei[rounded-lengths]:tie'
@@ -776,6 +860,52 @@ class Runner:
         self.ctx.count('dtype:' + dt)
         self.check4(A, L, orc_b, orc_w, case0, nontriv, conv=lambda X: np.asarray(X).astype(dt), tag=dt)
 
+    def stress(self, L, fam, case0, selftest=False):
+        """the four routines on a network whose path counts may exceed 2^53 / 2^63 (binary routines on the 0/1 pattern, weighted
+        ones on the length matrix, and on the pattern when that differs) against brandes_exact; the float routines carry
+        path counts with relative error ~1e-16 per addition and never subtract, so 1e-9 holds at any magnitude below 1e308"""
+        ctx = self.ctx
+        L = np.asarray(L, dtype=np.int64)
+        n = len(L)
+        A = (L != 0).astype(np.int64)
+        binary = bool(np.array_equal(A, L))
+        BCb, EBCb, Db, sgb = brandes_exact(to_lx(A.tolist()))
+        BCw, EBCw, Dw, sgw = (BCb, EBCb, Db, sgb) if binary else brandes_exact(to_lx(L.tolist()))
+        if selftest:
+            for M, got in ((A, (BCb, EBCb)),) + (() if binary else ((L, (BCw, EBCw)),)):
+                b3, e3 = oracle_pairs(to_lx(M.tolist()))[:2]
+                if b3 != got[0] or e3 != got[1]:
+                    ctx.errors.append('brandes_exact and oracle_pairs disagree on %s %r' % (fam, case0))
+        sg = max(sgb, sgw)
+        ctx.count('stress:' + fam); ctx.count('stress:n=%d' % n)
+        ctx.count('stress:paths>=2^63' if sg >= 2 ** 63 else 'stress:paths>=2^53' if sg >= 2 ** 53 else 'stress:paths>=2^31' if sg >= 2 ** 31 else 'stress:paths<2^31')
+        res = self.check4(A, L, (BCb, EBCb), (BCw, EBCw), case0, True, t=120.0)
+        reach = [(s_, t_) for s_ in range(n) for t_ in range(n) if s_ != t_ and Db[s_][t_] is not None]
+        if res['betweenness_bin'] is not None:
+            want = sum(Db[s_][t_] - 1 for s_, t_ in reach)
+            ctx.check(abs(float(np.sum(res['betweenness_bin'])) - want) <= TOL * max(1, want), 'betweenness_bin:sum_identity',
+                      'sum of node values is not sum(distance-1) over reachable ordered pairs', dict(case0, fn='betweenness_bin'))
+        if res['edge_betweenness_bin'] is not None:
+            want = sum(Db[s_][t_] for s_, t_ in reach)
+            ctx.check(abs(float(np.sum(res['edge_betweenness_bin'][0])) - want) <= TOL * max(1, want), 'edge_betweenness_bin:sum_identity',
+                      'sum of connection values is not sum(distance) over reachable ordered pairs', dict(case0, fn='edge_betweenness_bin'))
+        for fe, fn_ in (('edge_betweenness_bin', 'betweenness_bin'), ('edge_betweenness_wei', 'betweenness_wei')):
+            if res[fe] is not None and res[fn_] is not None:
+                ctx.check(np.allclose(res[fe][1], res[fn_], rtol=TOL, atol=TOL), fe + ':node_vector',
+                          'node vector differs from %s' % fn_, dict(case0, fn=fe))
+        if not binary:
+            # the weighted routines on the 0/1 pattern as well (C08_wei_eq_bin_on_binary)
+            for fn in ('betweenness_wei', 'edge_betweenness_wei'):
+                case = dict(case0, fn=fn, on='0/1 pattern')
+                ctx.case(case, nontrivial=True)
+                r_ = self.impl(getattr(self.bct, fn), A, fn, case, t=120.0)
+                if r_ is None:
+                    continue
+                if fn == 'betweenness_wei':
+                    ctx.check(close_vec(BCb, r_), fn + ':value', 'node betweenness on the 0/1 pattern differs from the exact-integer oracle', case)
+                else:
+                    ctx.check(close_mat(EBCb, r_[0]) and close_vec(BCb, r_[1]), fn + ':ebc', 'connection / node betweenness on the 0/1 pattern differs from the exact-integer oracle', case)
+
     def longpath(self, n, fam):
         """n >= 129 nodes on a shuffled path (+ optionally closing it to an even ring): closed forms, no oracle run.
         path: the node at position i lies on 2*i*(n-1-i) ordered pairs, the connection between positions i, i+1 on (i+1)*(n-1-i)
@@ -939,10 +1069,159 @@ class Runner:
                     ctx.count('search_ok')
 
 
+_BLAS = None
+
+
+def _blas():
+    """(set_num_threads, get_num_threads) of the OpenBLAS that numpy loaded, or (None, None)"""
+    global _BLAS
+    if _BLAS is None:
+        _BLAS = (None, None)
+        try:
+            import ctypes
+            libs = sorted({l.split()[-1] for l in open('/proc/self/maps') if 'openblas' in l.lower() and '.so' in l})
+            for p in libs:
+                lib = ctypes.CDLL(p)
+                for pre in ('scipy_openblas', 'openblas'):
+                    for suf in ('64_', ''):
+                        try:
+                            _BLAS = (getattr(lib, pre + '_set_num_threads' + suf), getattr(lib, pre + '_get_num_threads' + suf))
+                            return _BLAS
+                        except AttributeError:
+                            pass
+        except Exception:
+            pass
+    return _BLAS
+
+
+@contextlib.contextmanager
+def blas_threads(k=1):
+    """hundreds of successive n x n products with n ~ 200 cost ~100 times the CPU on 16 spinning BLAS threads: the large-matrix
+    block runs single-threaded.  Speed only; a no-op when the library is not found."""
+    st, gt = _blas()
+    old = None
+    if st is not None:
+        try:
+            old = int(gt()); st(int(k))
+        except Exception:
+            old = None
+    try:
+        yield
+    finally:
+        if old is not None:
+            st(old)
+
+
+BIN_OVERFLOW_KEY = 'betweenness_bin[walk-count-overflow]:returns'
+
+
+def bin_walk_overflow(ctx, R, k, c):
+    """K_k with a chain of c nodes (connected, undirected, (k-1)^c > 1.8e308): betweenness_bin counts ALL walks of length d in
+    NPd although it only uses those that are shortest paths; once an entry is inf, `NPd * (L == 0)` is nan and
+    `while np.any(NSPd)` never ends.  Real thorough tier: the call under a wall-clock limit.  Otherwise (quick tier and its
+    escalated pass, where a hang would cost the limit on every run): the call with numpy's overflow flag trapped - the
+    FloatingPointError raised inside the routine marks the round in which the counts leave binary64.  If the routine returns
+    (as it does once repaired) its value and edge_betweenness_bin's are judged by the exact-integer oracle."""
+    bct = R.bct
+    r = stress_rng(ctx, 2)
+    n = k + c
+    A = np.zeros((n, n), dtype=np.int64)
+    A[:k, :k] = 1
+    np.fill_diagonal(A, 0)
+    prev = 0
+    for i in range(k, n):
+        A[prev, i] = A[i, prev] = 1
+        prev = i
+    p = [int(x) for x in r.permutation(n)]
+    A = A[np.ix_(p, p)]
+    case = {'fn': 'betweenness_bin', 'family': 'clique+chain', 'k': k, 'c': c, 'perm': p,
+            'construction': 'K_k on nodes 0..k-1, chain 0 - k - k+1 - ... - k+c-1 (both directions), A = A[ix_(perm, perm)]'}
+    ctx.case(case, nontrivial=True)
+    ctx.count('stress:clique+chain(binary64 range)'); ctx.count('stress:n=%d' % n)
+    real = ctx.tier == 'thorough'
+    bc = None
+    with no_variants(), blas_threads(1):
+        try:
+            if real:
+                with np.errstate(all='ignore'):
+                    bc = call(bct.betweenness_bin, A.astype(float), _t=15.0)
+            else:
+                with np.errstate(over='raise', invalid='ignore'):
+                    bc = call(bct.betweenness_bin, A.astype(float), _t=60.0)
+        except Timeout:
+            ctx.fail(BIN_OVERFLOW_KEY, 'does not return within the limit on a connected undirected 0/1 network of %d nodes' % n, case)
+            return
+        except FloatingPointError as e:
+            ctx.fail(BIN_OVERFLOW_KEY, 'the walk counts NPd overflow binary64 (%s trapped inside the routine); untrapped the next product is nan and '
+                     '`while np.any(NSPd)` never ends' % e, case)
+            return
+        except Exception as e:
+            ctx.fail('betweenness_bin:raises', 'raised %r' % (e,), case)
+            return
+        BCo, EBCo, Do, sg = brandes_exact(to_lx(A.tolist()))
+        ctx.check(close_vec(BCo, bc), 'betweenness_bin:value', 'node betweenness differs from the exact-integer oracle', case)
+        case2 = dict(case, fn='edge_betweenness_bin')
+        ctx.case(case2, nontrivial=True)
+        try:
+            with np.errstate(all='ignore'):
+                eb = call(bct.edge_betweenness_bin, A.astype(float), _t=60.0)
+        except Exception as e:
+            ctx.fail('edge_betweenness_bin:raises', 'raised %r' % (e,), case2)
+            return
+        ctx.check(close_mat(EBCo, eb[0]) and close_vec(BCo, eb[1]), 'edge_betweenness_bin:ebc', 'connection / node betweenness differs from the exact-integer oracle', case2)
+
+
+def stress_rng(ctx, salt=1):
+    """a random state of its own for the stress families (derived from VERIF_SEED like ctx.nprng; the streams of the other
+    generators stay what they were)"""
+    return np.random.RandomState((ctx.seed * 7919 + int(ctx.pid[1:]) + 1000003 * salt + (500009 if ctx.escalated else 0)) % (2 ** 31))
+
+
+def stress_families(ctx, R):
+    """Braids whose end-to-end path count exceeds 2^63 (3^41.., 2^63..) - one per run in the quick tier -, in the thorough tier
+    (= the escalated pass on a changed tree, where this block runs FIRST) also counts beyond 2^31 / 2^32 / 2^53, per-layer
+    lengths, both orientations, and square grids (central binomial counts)."""
+    r = stress_rng(ctx)
+
+    def braid(width, layers, directed, weighted):
+        lens = [int(x) for x in r.randint(1, 4, size=layers + 1)] if weighted else None
+        L, p = g_braid(r, width, layers, directed, lens)
+        R.stress(L, 'braid', {'family': 'braid', 'width': width, 'layers': layers, 'directed': directed, 'lens': lens, 'perm': p, 'construction': BRAID_HOW})
+
+    # brandes_exact against the pair-counting oracle on a small member of each family
+    L, p = g_braid(r, int(r.choice([2, 3])), int(r.randint(4, 8)), bool(r.rand() < 0.5), [int(x) for x in r.randint(1, 4, size=9)])
+    R.stress(L, 'braid', {'family': 'braid(selftest)', 'G': L.tolist()}, selftest=True)
+    bin_walk_overflow(ctx, R, 50, 183)
+    if not ctx.thorough:
+        w, l = [(3, int(r.randint(41, 45))), (2, int(r.randint(63, 67)))][int(r.randint(2))]
+        braid(w, l, bool(r.rand() < 0.5), False)
+        return
+    for w, l in ((3, 41), (3, int(r.randint(42, 51))), (2, 63), (2, int(r.randint(64, 71)))):
+        braid(w, l, False, False)
+        braid(w, l, True, bool(r.rand() < 0.5))
+    braid(3, int(r.randint(41, 47)), False, True)
+    for w, l in ((3, 20), (2, 32), (3, int(r.randint(21, 34))), (2, int(r.randint(33, 53))), (4, int(r.randint(16, 27)))):
+        braid(w, l, bool(r.rand() < 0.5), bool(r.rand() < 0.3))
+    for side in (8, int(r.randint(9, 11))):
+        G = g_grid_wh(r, side, side, [1])
+        R.stress(G, 'grid', {'family': 'grid', 'side': side, 'construction': 'side x side grid, node (x, y) = y*side + x, unit lengths'}, selftest=(side == 8 and False))
+    G = g_grid_wh(r, 5, 5, [1])
+    R.stress(G, 'grid', {'family': 'grid(selftest)', 'side': 5}, selftest=True)
+
+
+def stress_only(ctx, bct):
+    """development aid: the stress families alone"""
+    stress_families(ctx, Runner(ctx, bct))
+
+
 def run(ctx):
     import bct
     R = Runner(ctx, bct)
     r = ctx.nprng
+    # stress families (numeric range of the path counts; oracle only): FIRST in the escalated pass of a changed tree (its time cap
+    # must not cut them off), LAST otherwise (the first calls of every routine stay the small inputs of the main stream)
+    if ctx.escalated:
+        stress_families(ctx, R)
     # corpus: small graphs that exercised past defects (unreachable nodes in edge_betweenness_bin; ties)
     for A in ([[0, 1, 0], [0, 0, 0], [0, 0, 0]], [[0, 1], [0, 0]], [[0]],
               [[0, 1, 1, 0], [0, 0, 0, 1], [0, 0, 0, 1], [0, 0, 0, 0]],
@@ -1014,4 +1293,6 @@ def run(ctx):
     if ctx.thorough:
         R.longpath(2 * int(r.randint(65, 71)), 'long_ring')
         R.longpath(int(r.randint(129, 141)), 'long_path')
+    if not ctx.escalated:
+        stress_families(ctx, R)
     R.correspond()
